@@ -448,6 +448,28 @@ func (a *gsAnalysis) scan(env *gsEnv, body ast.Node, out *[]gsWrite, visited map
 		case *ast.IncDecStmt:
 			a.store(env, x.X, x, stack, out)
 		case *ast.CallExpr:
+			// a shared reference handed to a function that stores through it
+			if cf := callee(a.info, x); cf != nil && !strings.HasPrefix(fullName(cf), "sync/atomic.") {
+				wt := writeThrough(a.c)
+				for i, arg := range x.Args {
+					arg = ast.Unparen(arg)
+					tv, ok := a.info.Types[arg]
+					if !ok || !isRefType(tv.Type) {
+						continue
+					}
+					inner := arg
+					if u, ok := arg.(*ast.UnaryExpr); ok && u.Op == token.AND {
+						inner = u.X
+					}
+					own, why := env.classify(inner, 0)
+					if _, isIdent := ast.Unparen(inner).(*ast.Ident); !isIdent {
+						own, why = env.classifyValue(inner, 0)
+					}
+					if own == ownShared && wt.writes(cf, i) && !a.synchronised(x, stack) {
+						*out = append(*out, gsWrite{pos: x.Pos(), target: arg, why: "passed to " + cf.Name() + ", which stores through this parameter; " + why})
+					}
+				}
+			}
 			// local closure called from the instance: analyse its body with parameter binding
 			if id, ok := ast.Unparen(x.Fun).(*ast.Ident); ok && depth < 2 {
 				if callee := a.lits[a.info.ObjectOf(id)]; callee != nil && !visited[callee] {
